@@ -103,7 +103,17 @@ impl ModelTl {
         }
         let is_int = self.is_int[i];
         let s = t - tm.delay as f64;
-        let ds = ulp32(s as f32) as f64 + extra;
+        // Rounding of `t - delay`: none when the difference of the two f32 inputs is itself exactly
+        // representable (delay 0, dyadic grids, ...) - an f32 subtraction is then exact, and so is
+        // the remainder modulo the cycle; only the final division rounds. Otherwise one ulp.
+        // Next to the end of the active span the rounded product cycle x (repeats+1) matters too.
+        let exact_sub = extra == 0.0 && (t as f32) as f64 == t && {
+            let r = t - tm.delay as f64;
+            r - t == -(tm.delay as f64) && (r as f32) as f64 == r
+        };
+        let span = tm.active_span();
+        let near_end = span.is_finite() && (s - span).abs() <= 4.0 * ulp32(span as f32) as f64;
+        let ds = if exact_sub && !near_end { 0.0 } else { ulp32(s as f32) as f64 + extra + if near_end { ulp32(span as f32) as f64 } else { 0.0 } };
         let pts = [s - ds, s, s + ds];
         let ph: Vec<Phase> = pts.iter().map(|&x| tm.phase_s(x)).collect();
         // "Piece" = maximal stretch of time over which the value is a continuous function of time
@@ -195,8 +205,23 @@ impl ModelTl {
                 }
             }
         }
-        let pl = (pmin - 2f64.powi(-22)).max(0.0);
-        let phh = (pmax + 2f64.powi(-22)).min(1.0);
+        // rounding of the position itself (remainder / cycle, folded when reversing): none when the
+        // subtraction is exact and the cycle is a power of two (the division is then exact too)
+        let c_pow2 = {
+            let c = tm.cycle as f64;
+            c > 0.0 && c.log2().fract() == 0.0
+        };
+        let pos_margin = if ds == 0.0 && c_pow2 && !tm.reverse {
+            0.0
+        } else if ds == 0.0 {
+            2f64.powi(-23)
+        } else {
+            2f64.powi(-22)
+        };
+        // (an f32 quotient is never finer than the smallest denormal step)
+        let pos_margin = pos_margin + 1.5e-45;
+        let pl = (pmin - pos_margin).max(0.0);
+        let phh = (pmax + pos_margin).min(1.0);
         let ll = mv_model::locate(fr, pl);
         let lh = mv_model::locate(fr, phh);
         match (&ll, &lh) {
